@@ -27,7 +27,9 @@ use crate::{
 use super::initiating::Initiating;
 
 use super::super::{
-    machine::{BmpState, BmpStateDetails, Initiable, PeerAware},
+    machine::{
+        end_of_rib, BmpState, BmpStateDetails, Initiable, PeerAware,
+    },
     processing::ProcessingResult,
 };
 
@@ -233,7 +235,7 @@ impl BmpStateDetails<Dumping> {
         pph: &PerPeerHeader<Bytes>,
         update: &UpdateMessage<Bytes>,
     ) -> ControlFlow<ProcessingResult, Self> {
-        if let Ok(Some(afi_safi)) = update.is_eor() {
+        if let Some(afi_safi) = end_of_rib(update) {
             if self
                 .details
                 .remove_pending_eor(pph, (afi_safi).try_into().unwrap())
